@@ -379,6 +379,20 @@ def _run_stego(case):
     return obs
 
 
+class _cwd:
+    """run a block with another current directory (None: unchanged)"""
+    def __init__(self, wd):
+        self.wd = wd
+
+    def __enter__(self):
+        self.old = os.getcwd()
+        if self.wd:
+            os.chdir(self.wd)
+
+    def __exit__(self, *a):
+        os.chdir(self.old)
+
+
 def run_impl(case):
     import pngref
     if case.get('stego'):
@@ -438,12 +452,18 @@ def run_impl(case):
             # the three ways a caller can leave the label to the destination: argument omitted, passed as None, or
             # (when the destination exists) named explicitly - all must use the existing destination's picture
             how = case['seed'] % 3
-            if how == 1:
-                gfile.to_file(g, fn, label_fname=None)
-            elif how == 2 and case['dest'] != 'none':
-                gfile.to_file(g, fn, label_fname=fn)
-            else:
-                gfile.to_file(g, fn)
+            # ... and the three ways to name the destination: absolute, relative with a directory part, bare name in
+            # the current directory (the picture of an existing destination must be found in each)
+            pw = (case['seed'] // 3) % 3
+            wd, fa = (None, fn) if pw == 0 else (root, os.path.join(os.path.basename(d), 'cart.p8.png')) if pw == 1 \
+                else (d, 'cart.p8.png')
+            with _cwd(wd):
+                if how == 1:
+                    gfile.to_file(g, fa, label_fname=None)
+                elif how == 2 and case['dest'] != 'none':
+                    gfile.to_file(g, fa, label_fname=fa)
+                else:
+                    gfile.to_file(g, fa)
             obs['raised'] = None
         except Exception as e:  # noqa
             obs['raised'] = lib.exc_name(e)
